@@ -1,2 +1,48 @@
 use serde_json::{json, Value as J};
-pub fn run(api: &str, _case: &J) -> J { json!({"bad_api": api}) }
+
+#[path = "../../kani/src/shared.rs"]
+#[allow(dead_code)]
+mod shared;
+use shared::{bodies, Chk, Src};
+
+struct CSrc { vals: Vec<Vec<u8>>, i: usize }
+impl CSrc {
+    fn next(&mut self, n: usize) -> Vec<u8> {
+        let mut v = if self.i < self.vals.len() { self.vals[self.i].clone() } else { vec![] };
+        self.i += 1; v.resize(n, 0); v
+    }
+}
+impl Src for CSrc {
+    fn u8(&mut self) -> u8 { self.next(1)[0] }
+    fn i8(&mut self) -> i8 { self.next(1)[0] as i8 }
+    fn u64(&mut self) -> u64 { let v = self.next(8); u64::from_le_bytes([v[0], v[1], v[2], v[3], v[4], v[5], v[6], v[7]]) }
+}
+#[derive(Default)]
+struct CChk { failed: Vec<String>, assumption_violated: bool, covered: Vec<String> }
+impl Chk for CChk {
+    fn assume(&mut self, c: bool) { if !c { self.assumption_violated = true; } }
+    fn check(&mut self, c: bool, msg: &'static str) { if !c && !self.assumption_violated { self.failed.push(msg.to_string()); } }
+    fn cover(&mut self, c: bool, msg: &'static str) { if c { self.covered.push(msg.to_string()); } }
+}
+
+pub fn run(api: &str, case: &J) -> J {
+    match api {
+        // re-run a Kani harness body natively on the concrete inputs of a counterexample
+        "kani_body" => {
+            let vals: Vec<Vec<u8>> = case["inputs"].as_array().unwrap().iter()
+                .map(|v| v.as_array().unwrap().iter().map(|b| b.as_u64().unwrap() as u8).collect()).collect();
+            let mut s = CSrc { vals, i: 0 };
+            let mut c = CChk::default();
+            match case["name"].as_str().unwrap() {
+                "coord_eq_hash" => bodies::coord_eq_hash(&mut s, &mut c),
+                "coord_ord" => bodies::coord_ord(&mut s, &mut c),
+                "coord_transitive" => bodies::coord_transitive(&mut s, &mut c),
+                "kind_codes" => bodies::kind_codes(&mut s, &mut c),
+                "dims_add_sub" => bodies::dims_add_sub(&mut s, &mut c),
+                other => return json!({"bad_case": other}),
+            }
+            json!({"ok": {"failed": c.failed, "assumption_violated": c.assumption_violated, "covered": c.covered}})
+        }
+        other => crate::apis4::run(other, case),
+    }
+}
